@@ -297,6 +297,15 @@ func cmdCheck(args []string) int {
 	for _, r := range results {
 		resByFunc[r.Func] = r
 	}
+	// call-site obligations are named by the position of the call in the function; an edit that adds or
+	// removes a call shifts the numbers, so a failing one also counts as a regression when the ledger has the
+	// same function, callee and clause under another number
+	ledNorm := map[string]bool{}
+	for n := range led.Proved {
+		if strings.Contains(n, "#call#") || strings.Contains(n, "#hint:") {
+			ledNorm[normCall(n)] = true
+		}
+	}
 	for _, or := range ors {
 		full := or.Func + "#" + or.Obl.Name
 		total++
@@ -315,7 +324,7 @@ func cmdCheck(args []string) int {
 			if f, ok := known[full]; ok {
 				knownHit = append(knownHit, fmt.Sprintf("KNOWN-FINDING: property=%s %s (obligation %s)", *prop, f.text, full))
 				entry["verdict"] = "known-finding"
-			} else if _, was := led.Proved[full]; was || *triage {
+			} else if _, was := led.Proved[full]; was || *triage || ledNorm[normCall(full)] {
 				// counterexample for the failing path, replayed on the real code when the function has a replay template
 				r := resByFunc[or.Func]
 				data := map[string]interface{}{
@@ -511,4 +520,18 @@ func keys(m map[string]bool) []string {
 	}
 	sort.Strings(ks)
 	return ks
+}
+
+var callNumRe = regexp.MustCompile(`#call#\d+:`)
+var hintNumRe = regexp.MustCompile(`(#hint:(before|after):[^#]*)#\d+:`)
+
+// normCall drops the position numbers from a call-site or hint obligation name ("" for other names).
+func normCall(n string) string {
+	if strings.Contains(n, "#call#") {
+		return callNumRe.ReplaceAllString(n, "#call#N:")
+	}
+	if strings.Contains(n, "#hint:") {
+		return hintNumRe.ReplaceAllString(n, "$1#N:")
+	}
+	return ""
 }
